@@ -86,6 +86,7 @@ func c11Worker(tag string, t *Mast, md *symModel, ops int, keys, vals []uint64, 
 //   MODE 0: both trees loaded from the same persisted root through the shared cache
 //   MODE 1: one loaded tree and its clone
 //   MODE 2: an in-memory (never persisted) tree and its clone
+//   MODE 3: two clones of a clone of a loaded tree that has one un-flushed modification
 func HarnessC11a() {
 	N := verifBound("N")
 	OPS := verifBound("OPS")
@@ -128,6 +129,20 @@ func HarnessC11a() {
 				return
 			}
 		}
+	}
+	if mode == 3 {
+		// two second-generation clones: the loaded tree gets one un-flushed modification, is cloned,
+		// and the clone is cloned twice; the goroutines own the two siblings
+		k0, v0 := verifNondetKey("k"), verifNondetVal("v")
+		verifAssert("C01.insert.err", t1.Insert(vctx, symKey{k0}, v0) == nil)
+		md.put(k0, v0)
+		c1, err := t1.Clone(vctx)
+		verifAssert("C01.clone.err", err == nil)
+		a, err := c1.Clone(vctx)
+		verifAssert("C01.clone.err", err == nil)
+		b2, err := c1.Clone(vctx)
+		verifAssert("C01.clone.err", err == nil)
+		t1, t2 = &a, &b2
 	}
 	if t2 == nil {
 		c, err := t1.Clone(vctx)
